@@ -5,6 +5,7 @@
 From Coq Require Import Reals String List Lra.
 From TT Require Import lib.PreludeR lib.Stats lib.Distr lib.DistrWitness lib.ExtR lib.Textbook genR.Aggr genR.Mean
   proofs.C14_pooling proofs.Mean_core proofs.Mean_aggr proofs.C04_textbook.
+From TT Require Import lib.Plan lib.PlanSem model.ReadPlan proofs.C12_agree proofs.C01_denote proofs.C04_end_to_end.
 Import ListNotations.
 Local Open Scope R_scope.
 
@@ -31,6 +32,21 @@ Theorem C04_relative_interval_is_log_delta : 0 < smean (col v) lc * smean (col v
 Proof. exact (mean_textbook_rel fam HF v alt cl ev ut alpha ratio power lc lt Hlc Hlt Hvar Hcl). Qed.
 End C04.
 
+(* From the table to the analysis (with C01): the result rows that a builder's query plan yields for two variants, read
+   back by _get_aggregates, give the metric exactly the analysis of the exact statistics of the two variants' rows - the
+   object the theorems above (and C05 / C06 / C17) are about.  C01_plan_denotes_exact_statistics provides the hypothesis
+   exact_for_gen for every builder, request and table. *)
+Theorem C04_from_plan_rows_to_analysis fam cfg q g tbl repc rept oc ot :
+  (forall c, In c (cfg_cols cfg) -> In c (r_mean q)) -> (forall c, In c (cfg_cols cfg) -> In c (r_var q)) ->
+  (forall c d, In c (cfg_cols cfg) -> In d (cfg_cols cfg) -> c <> d -> In (sorted_tuple c d) (r_cov q)) ->
+  NoDup (cfg_cols cfg) -> exact_for_gen q g tbl true repc oc -> exact_for_gen q g tbl true rept ot ->
+  rom_analyze_aggregates fam cfg (row_aggr oc) (row_aggr ot)
+  = rom_analyze_aggregates fam cfg (aggr_of (part g repc tbl)) (aggr_of (part g rept tbl)).
+Proof.
+  intros Hm Hv Hc Hnd Hec Het.
+  exact (analysis_of_plan_rows_is_analysis_of_exact_statistics fam cfg q g tbl Hm Hv Hc repc rept oc ot Hnd Hec Het).
+Qed.
+
 (* non-vacuity: laws are satisfiable and a sample with non-zero variance exists *)
 Example C04_nonvacuous :
   let r1 : row := fun _ => 1 in let r2 : row := fun _ => 3 in
@@ -42,3 +58,4 @@ Qed.
 
 Print Assumptions C04_mean_is_textbook.
 Print Assumptions C04_relative_interval_is_log_delta.
+Print Assumptions C04_from_plan_rows_to_analysis.
